@@ -362,3 +362,6 @@ def run(ctx):
                         'well-formedness of attribute/credential values whose class is chosen at run time']
     ctx.assumptions += ['T_TYPES / T_FIXED / T_SIZES transcribe KMIP 1.x section 9.1', 'struct module semantics']
     check_value_length_accounting(ctx)
+    ctx.rule('C02.R7', 'BigInteger.write emits a two\'s-complement number: the magnitude bits are padded to a multiple of 64 with at least one leading zero (the sign bit) for every bit length (shared with C01.R3 sign-room)')
+    from .c01 import check_biginteger_sign_room
+    check_biginteger_sign_room(ctx, src.tree(PRIM), rule='C02.R7')
